@@ -46,6 +46,10 @@ def rand_inputs(rng, sg, variant):
         else:
             v = np.where(rng.random(shp) < 0.5, lo, hi)
         out[ti] = np.asarray(v, dtype=np.int64).reshape(shp)
+    for ti, T in enumerate(sg.tensors):
+        if getattr(T, "is_variable", False) and T.data is None and ti not in out and T.dtype in tfref.RANGE:
+            # persistent state: part of what the inference is a function of; the interpreter's reset value (the zero point) in both models
+            out[ti] = np.full(T.shape, (T.zp or [0])[0], dtype=np.int64)
     return out
 
 
@@ -83,6 +87,9 @@ def run_output_model(art, acc, inputs_by_name, poison, counters):
         if offs[ti] < 0:
             continue  # an input nobody consumes is not placed in the arena
         store(arena, offs[ti], T, inputs_by_name[T.name])
+    for ti, T in enumerate(sg.tensors):
+        if getattr(T, "is_variable", False) and T.data is None and offs[ti] >= 0 and T.name in inputs_by_name and ti not in sg.inputs:
+            store(arena, offs[ti], T, inputs_by_name[T.name])  # persistent state: defined before the inference starts
     npu_by_index = {n.op_index: n for n in art.npu_ops}
     for k, op in enumerate(sg.ops):
         if k in npu_by_index:
